@@ -351,7 +351,7 @@ def run(ctx: core.Ctx) -> int:
         if i % 3 == 0 or i >= n_nogit:
             routes += ["annotate", "annotate-sub"]
         cases.append({"tid": i + 1, "g": g, "seed": ctx.seed * 7919 + i, "routes": routes})
-    evl = core.pmap(run_case, cases, chunksize=8)
+    evl = ctx.pmap(run_case, cases, chunksize=8)
     events = [e for es in evl for e in es]
     for ev in events[:: max(1, len(events) // 5)][:5]:
         ctx.samples.append({"case": json.loads(ev["label"]), "examined": [f["path"] for f in ev["obs"]["files"]]})
@@ -375,4 +375,4 @@ def run(ctx: core.Ctx) -> int:
 
 
 def replay(ctx: core.Ctx, path: str) -> int:
-    raise core.MachineryError("replay for C03 re-runs the whole case list; use the check with the same VERIF_SEED")
+    return core.generic_replay(ctx, path)
